@@ -277,6 +277,30 @@ func (w *c01World) rewardOracle(pre, post *rewardSnap) (string, string) {
 			return "C01/reward-exceeds-proven-share", fmt.Sprintf("reward block at %d released %s; %s validly holds size %s of %s counted, but was paid %s (> %s): it is being paid for files it has not proven", post.Height, R, short(d.Addr), c, total, d.Diff, hi)
 		}
 	}
+	// prover status is kept only by proofs: whoever was listed on a file that is past its first window and has no valid
+	// proof (or completed attestation) recent enough must be off the list after the reward block
+	for _, fk := range sortedFileKeys(pre.Files) {
+		fs := pre.Files[fk]
+		after, still := post.Files[fk]
+		if !still {
+			continue
+		}
+		for _, p := range fs.Provers {
+			last := int64(-1 << 40)
+			if pm, ok := w.pairs[p+"|"+fk]; ok {
+				last = pm.LastAccepted
+			}
+			if _, met := obligationMet(post.Height, fs.Start, fs.Window, last); met {
+				continue
+			}
+			for _, q := range after.Provers {
+				if q == p {
+					return "C01/prover-status-kept-without-proof", fmt.Sprintf("reward block at %d: %s is still listed on %s (start %d, window %d) although its last valid proof or attestation dates from %d", post.Height, short(p), fk[:8], fs.Start, fs.Window, last)
+				}
+			}
+			w.classes["dropped-for-missing-proofs"]++
+		}
+	}
 	// membership may only shrink in a reward block
 	for fk, fs := range post.Files {
 		for _, p := range fs.Provers {
@@ -455,7 +479,8 @@ func TestC01(t *testing.T) {
 		w := newC01World(c, chunk, W, C)
 		nH := rapid.IntRange(2, 4).Draw(rt, "holders")
 		for i := 0; i < nH; i++ {
-			w.addAccount(10+i, true, true)
+			// posting a proof does not require a provider registration: now and then a holder has none
+			w.addAccount(10+i, true, rapid.IntRange(0, 3).Draw(rt, "holderRegistered") > 0)
 		}
 		nD := rapid.IntRange(1, 3).Draw(rt, "dishonest")
 		for i := 0; i < nD; i++ {
@@ -693,6 +718,20 @@ func TestC01(t *testing.T) {
 					}
 				}
 				fail(w.attest(signer, prover, f))
+			},
+			"shutdown": func(rt *rapid.T) { // a provider record goes away (collateral refunded); files it proves keep listing it
+				a := w.accounts[rapid.IntRange(0, len(w.accounts)-1).Draw(rt, "who")]
+				before := w.state()
+				res := w.f.Exec(storagetypes.NewMsgShutdownProvider(a.Bech))
+				w.logf("shutdown provider %s -> %s", short(a.Bech), res)
+				for k, b := range before {
+					if a2 := w.state()[k]; a2 != b {
+						fail("C01/other-pair-changed", fmt.Sprintf("a provider shutdown changed prover state %s: %+v -> %+v", k[:20], b, a2))
+					}
+				}
+				if res.OK() {
+					w.classes["provider-shut-down"]++
+				}
 			},
 			"advance": func(rt *rapid.T) {
 				n := rapid.IntRange(1, 4).Draw(rt, "blocks")
